@@ -52,14 +52,26 @@ def phases(tier: str) -> List[Dict[str, Any]]:
             {"name": "isolation", "runs": 400, "batch": 25, "timeout": 300, "wall": 60},
             {"name": "direct", "runs": 480, "batch": 10, "timeout": 300, "wall": 100},
             {"name": "dynamo", "runs": 256, "heavy": True, "timeout": 240, "wall": 110},
-            {"name": "known", "runs": 12, "heavy": True, "timeout": 240, "wall": 60},
+            {"name": "known", "runs": 4, "explicit": True, "timeout": 240, "wall": 60},
         ]
     return [
         {"name": "isolation", "runs": 20000, "batch": 200, "timeout": 900, "wall": 600},
         {"name": "direct", "runs": 20000, "batch": 50, "timeout": 900, "wall": 900},
         {"name": "dynamo", "runs": 6000, "heavy": True, "timeout": 400, "wall": 1800},
-        {"name": "known", "runs": 48, "heavy": True, "timeout": 240, "wall": 120},
+        {"name": "known", "runs": 4, "explicit": True, "timeout": 240, "wall": 120},
     ]
+
+
+def explicit_plans(tier: str, phase: str) -> List[Dict[str, Any]]:
+    """Deterministic probes of the recorded findings D7 (root is a torch.nn layer) and D9
+    (lossless gradients equal only to rounding)."""
+    base = {"phase": "known", "timeout": 300, "shrink_budget": 0, "key": 12345, "pseed": 7,
+            "fwd": [4, 3, "nearest", 0], "bwd": [5, 2, "nearest", 0], "use_fp8": False,
+            "opts": {"vocab": "quant", "depth": [1, 2], "avoid": []}}
+    return [dict(base, ops=[{"op": "nn_root", "kind": "linear"}]),
+            dict(base, ops=[{"op": "nn_root", "kind": "sequential"}]),
+            dict(base, ops=[{"op": "shared_qkv", "style": "plain", "shape": [2, 3, 8]}]),
+            dict(base, ops=[{"op": "shared_qkv", "style": "causal", "shape": [2, 4, 8]}])]
 
 
 def _gen_fmt(r: Any) -> List[Any]:
